@@ -193,7 +193,7 @@ def playback_values(crate, tdir, harness, flags=(), timeout=900):
            '-Z', 'concrete-playback', '--concrete-playback=print'] + [f for f in flags]
     rc, out, wall = run(cmd, cwd=crate, mem_kb=MEM_KB, timeout=timeout)
     tests = []
-    for m in re.finditer(r'/// Check for `([^`]*)`: "(.*?)"\s*\n#\[test\]\s*\nfn \w+\(\) \{\s*let concrete_vals: Vec<Vec<u8>> = vec!\[(.*?)\];', out, re.S):
+    for m in re.finditer(r'/// Check for `([^`]*)`: "(.*?)"\s*\n(?:\s*///[^\n]*\n|\s*\n)*#\[test\]\s*\nfn \w+\(\) \{\s*let concrete_vals: Vec<Vec<u8>> = vec!\[(.*?)\];', out, re.S):
         kind, desc = m.group(1), m.group(2).strip('"')
         vals = []
         for vm in re.finditer(r'vec!\[([0-9,\s]*)\]', m.group(3)):
